@@ -232,6 +232,7 @@ def run(ctx):
               '%s: construct/get_params/set_params with object identity as tokens; every deprecated alias; every public '
               'method on a fresh object; plus TLC-simulated life-cycle histories with clone / pickle / set_params; '
               'distinct by (estimator, parameter, value kind) resp. (estimator, history)' % kinds)
+  ctx.rule += " Plus the executions of the repository's own test suite recorded by the pytest tracing plugin (one case per test / per estimator object; distinct by test id)."
   pairs = core.generate(MOD, rs + life)
   pp = [(r, t) for r, t in pairs if r['src'] in ('params', 'alias')]
   core.judge(ctx, 'TR_Params', 'TR_Params.cfg', pp, signature_of, tag='TR_Params')
